@@ -309,6 +309,9 @@ func (w *World) requestEnded(r *Request, killed bool) {
 			c.IP = resultIP(r.Resp)
 			w.kubeletStatus(c, c.IP)
 			c.Mappings = w.handedOut(c)
+			for _, m := range c.Mappings {
+				w.portPod[fmt.Sprintf("%s/%d", m.Proto, m.HostPort)] = c.Pod.Idx
+			}
 			w.S.Stat("cni.add.ok")
 		} else {
 			c.Phase = "addfailed"
